@@ -112,10 +112,15 @@ def run(ctx):
            required_actions=["LSetStatus", "LSetHeader", "LAddHeader", "LClearHeader", "WriteB",
                              "Flush", "FinishB", "End"], timeout=ctx.pick(300, 1200))
     # 2. spec -> code -> spec: every program up to L
-    L = ctx.pick(3, 4)
+    L = 3
     paths = ctx.gen_paths(FAM, "Gen_HttpWriter", "Gen_HttpWriter.cfg",
                           overrides=ctx.pick({"L": L}, {"L": L, "Statuses": "{204, 304, 404}", "ClVals": "{1, 3}",
                                                         "InmVersions": '{"1.0", "1.0ka", "1.1"}'}))
+    if not ctx.quick:
+        # length 4 on the configurations where framing decisions differ most (GET x 1.0+keep-alive / 1.1)
+        paths += ctx.gen_paths(FAM, "Gen_HttpWriter", "Gen_HttpWriter.cfg",
+                               overrides={"L": 4, "Methods": '{"GET"}', "Versions": '{"1.0ka", "1.1"}', "Inms": '{"absent"}'},
+                               timeout=1200)
     jobs = [(i + 1, extra["cfg"], drv.path_ops(path), {}) for i, (extra, path) in enumerate(paths)]
     traces = framework.pool_map(_job, jobs)
     ctx.validate(FAM, "Trace_HttpWriter", "Trace_HttpWriter.cfg", traces, label="s2c", sig_fn=sig_of)
@@ -133,8 +138,8 @@ def run(ctx):
     ctx.cov["rule"] = ("programs: every sequence of set_status/set_header/add_header/clear_header/write/flush/finish "
                        "up to length %d for GET/HEAD/POST x HTTP/1.0, 1.0+keep-alive, 1.1 (If-None-Match matching: GET/HEAD, quick: 1.1 only), "
                        "executed on the real server and judged by TLC (RespReader on the raw bytes); plus seeded random "
-                       "programs (<= 9 ops, arbitrary byte chunks, partial socket writes); distinct = distinct "
-                       "(configuration, operation sequence)" % L)
+                       "programs (<= 9 ops, arbitrary byte chunks, partial socket writes); thorough adds all programs of length 4 for "
+                       "GET x {1.0+keep-alive, 1.1}; distinct = distinct (configuration, operation sequence)" % L)
     ctx.cov["trusted_base"] += ["harness/httpw_driver.py (moves bytes only)", "specs/httpw/RespReader.tla (strict reader, TLA+)"]
 
 
